@@ -1580,11 +1580,21 @@ fn contains_call_named(e: &Expr, name: &str) -> bool {
             }
             syn::visit::visit_expr(self, e);
         }
+        // `name!`: a macro invocation counts as a call of it
+        fn visit_macro(&mut self, m: &'ast syn::Macro) {
+            if macro_call_name(m).as_deref() == Some(self.0) {
+                self.1 = true;
+            }
+        }
         fn visit_item(&mut self, _: &'ast Item) {}
     }
     let mut v = V(name, false);
     v.visit_expr(e);
     v.1
+}
+
+fn macro_call_name(m: &syn::Macro) -> Option<String> {
+    m.path.segments.last().map(|s| format!("{}!", s.ident))
 }
 
 impl<'u> Tr<'u> {
@@ -1659,8 +1669,37 @@ impl<'u> Tr<'u> {
                     _ => app("List.app", vec![here, after]),
                 })
             }
+            Stmt::Macro(sm) if macro_call_name(&sm.mac).as_deref() == Some(callee) => {
+                let here = self.effects_macro(&sm.mac, env, callee, ety)?;
+                let after = self.effects_block(rest, env, callee, ety)?;
+                Ok(match &after {
+                    G::Raw(b) if b == "nil" => here,
+                    _ => app("List.app", vec![here, after]),
+                })
+            }
             Stmt::Macro(_) | Stmt::Item(_) => self.effects_block(rest, env, callee, ety),
         }
+    }
+
+    /// `callee!(a0, a1, ..)`: the argument the request names is the recorded value
+    fn effects_macro(&mut self, mac: &syn::Macro, env: &Env, callee: &str, ety: &mut Option<Ty>) -> R<G> {
+        let args: Vec<Expr> = match mac.parse_body_with(syn::punctuated::Punctuated::<Expr, syn::Token![,]>::parse_terminated) {
+            Ok(p) => p.into_iter().collect(),
+            Err(e) => return self.err(mac.span(), format!("cannot parse the arguments of `{callee}`: {e}")),
+        };
+        let i = match self.effect_arg {
+            Some(i) => i,
+            None => return self.err(mac.span(), format!("`{callee}`: the request does not say which argument (`of: {{\"arg\": i}}`)")),
+        };
+        let a = match args.get(i) {
+            Some(a) => a,
+            None => return self.err(mac.span(), format!("`{callee}` is called with {} arguments (argument {i} is needed)", args.len())),
+        };
+        let (g, t) = self.expr(a, env, ety.as_ref())?;
+        if ety.is_none() {
+            *ety = Some(t);
+        }
+        Ok(raw(format!("(cons {} nil)", g.atom(4))))
     }
 
     fn effects_expr(&mut self, e: &Expr, env: &Env, callee: &str, ety: &mut Option<Ty>) -> R<G> {
@@ -1674,19 +1713,29 @@ impl<'u> Tr<'u> {
             Expr::Await(a) => self.effects_expr(&a.base, env, callee, ety),
             Expr::Reference(r) => self.effects_expr(&r.expr, env, callee, ety),
             Expr::Block(b) if b.label.is_none() => self.effects_block(&b.block.stmts, env, callee, ety),
+            Expr::Macro(m) if macro_call_name(&m.mac).as_deref() == Some(callee) => self.effects_macro(&m.mac, env, callee, ety),
             Expr::MethodCall(_) | Expr::Call(_) if call_name(e).as_deref() == Some(callee) => {
                 let args: Vec<&Expr> = match e {
                     Expr::MethodCall(m) => m.args.iter().collect(),
                     Expr::Call(c) => c.args.iter().collect(),
                     _ => vec![],
                 };
-                if args.len() != 1 {
-                    return self.err(e.span(), format!("`{callee}` is called with {} arguments (one is needed)", args.len()));
-                }
-                if contains_call_named(args[0], callee) {
+                let arg = match self.effect_arg {
+                    None => {
+                        if args.len() != 1 {
+                            return self.err(e.span(), format!("`{callee}` is called with {} arguments (one is needed)", args.len()));
+                        }
+                        args[0]
+                    }
+                    Some(i) => match args.get(i) {
+                        Some(a) => *a,
+                        None => return self.err(e.span(), format!("`{callee}` is called with {} arguments (argument {i} is needed)", args.len())),
+                    },
+                };
+                if args.iter().any(|a| contains_call_named(a, callee)) {
                     return self.err(e.span(), format!("nested calls of `{callee}`"));
                 }
-                let (g, t) = self.expr(args[0], env, ety.as_ref())?;
+                let (g, t) = self.expr(arg, env, ety.as_ref())?;
                 if ety.is_none() {
                     *ety = Some(t);
                 }
@@ -1738,6 +1787,7 @@ impl<'u> Tr<'u> {
         let mut binders = Vec::new();
         self.declare_params(rq, self_ty.as_deref(), &mut env, &mut binders)?;
         self.cur_file = self.u.files[file].clone();
+        self.effect_arg = rq.of.as_ref().and_then(|o| o.get("arg")).and_then(|v| v.as_u64()).map(|v| v as usize);
         let mut ety: Option<Ty> = match &rq.ty {
             Some(t) => {
                 let ty: Type = match syn::parse_str(t) {
@@ -1750,7 +1800,9 @@ impl<'u> Tr<'u> {
             }
             None => None,
         };
-        let g = self.effects_block(&stmts, &env, &callee, &mut ety)?;
+        let g = self.effects_block(&stmts, &env, &callee, &mut ety);
+        self.effect_arg = None;
+        let g = g?;
         let ety = match ety {
             Some(t) => t,
             None => return self.err(sig.ident.span(), format!("no call of `{callee}`{scope_text} of `{}`", rq.item)),
